@@ -7,7 +7,7 @@
    armoring by the book (fs_spec_armor).  Strings are lists of character codes. *)
 From Coq Require Import String ZArith List Bool.
 Require Import Prim.Exn Prim.Bits Prim.Fmt Model.FieldTypes Gen.GenTables Model.Codec Model.Frame Spec.FrameSpec.
-Require Import Proofs.FrameArmorProofs Proofs.FrameProofs.
+Require Import Proofs.FrameArmorProofs Proofs.FrameProofs Gen.GenConst.
 Import ListNotations.
 Open Scope list_scope.
 Open Scope Z_scope.
@@ -161,3 +161,11 @@ Example C09_bound_tight :
              fs_clause_holds frm_AIVDM [65] (repeat 48 541) 0 ss ClLength = false /\
              length (hd [] ss) = 81%nat.
 Proof. eexists. split; [vm_compute; reflexivity|]. split; vm_compute; reflexivity. Qed.
+
+(* The literals of ais_to_nmea_0183 written by hand in Model/Frame.v are the ones the translator reads from
+   pyais/encode.py on every run (Gen/GenConst.v): a changed fragment size or template in the source breaks this
+   obligation by name. *)
+Theorem C09_literals_tied :
+  Z.of_nat frm_max_len = ENCODE_MAX_LEN /\ ENCODE_TEMPLATE = "!{},{},{},{},{},{},{}*{:02X}"%string.
+Proof. split; reflexivity. Qed.
+Print Assumptions C09_literals_tied.
